@@ -264,3 +264,81 @@ Proof.
 Qed.
 
 End NearBound.
+
+(* ------------------------------------------------------------------ exactness on linear data *)
+Section LinearExact.
+Variable m : mesh1 AR R.
+Notation nodes := (m1_nodes m).
+Notation xs k := (nth k (m1_nodes m) 0).
+Notation row k := (nth k (m1_vars m) []).
+
+(* the line of a cell whose two nodal values lie on a*x+b is that line *)
+Lemma cellv_linear k x c a b :
+  wf1 m -> (k + 1 < length nodes)%nat -> xs (k + 1) <> xs k -> (c < m1_nvars m)%nat ->
+  nth c (row k) 0 = a * xs k + b -> nth c (row (k + 1)) 0 = a * xs (k + 1) + b ->
+  nth c (cellv m k x) 0 = a * x + b.
+Proof.
+  intros Hwf Hk Hne Hc Hl Hr. unfold cellv. rewrite nth_lerp_row.
+  - arR. rewrite Hl, Hr. field. lra.
+  - rewrite !row_length by (auto; lia). reflexivity.
+  - rewrite row_length by (auto; lia). exact Hc.
+Qed.
+
+(* piecewise-linear interpolation reproduces linear data exactly at EVERY point of the grid range,
+   the snapping windows included (there the neighbouring cell's line is the same line) *)
+Lemma interp_linear_exact snap x c a b :
+  0 < snap -> wf1 m -> spaced snap nodes -> (2 <= length nodes)%nat -> (c < m1_nvars m)%nat ->
+  (forall k, (k < length nodes)%nat -> nth c (row k) 0 = a * xs k + b) ->
+  xs 0%nat - snap < x -> x < xs (length nodes - 1) + snap ->
+  exists r, @interp1 AR snap m x = Ok r /\ nth c r 0 = a * x + b.
+Proof.
+  intros Hs Hwf Hsp Hn Hc Hlin Hlo Hhi.
+  assert (Hne := spaced_ne m snap (Rlt_le _ _ Hs) Hsp).
+  destruct (interp_total m snap x Hs Hwf Hsp Hn)
+    as [[H _]|[[H _]|[(k & Hk & _ & E)|(k & Hk & _ & _ & E)]]]; [lra|lra| |].
+  - exists (cellv m (Nat.min k (length nodes - 2)) x). split; [exact E|].
+    apply cellv_linear; auto; try lia.
+    + apply Hne. lia.
+    + apply Hlin. lia.
+    + apply Hlin. lia.
+  - exists (cellv m k x). split; [exact E|].
+    apply cellv_linear; auto.
+    apply Hlin. lia.
+Qed.
+
+End LinearExact.
+
+Lemma interp_linear_exact_snapR (m : mesh1 AR R) x c a b :
+  wf1 m -> spaced snapR (m1_nodes m) -> (2 <= length (m1_nodes m))%nat -> (c < m1_nvars m)%nat ->
+  (forall k, (k < length (m1_nodes m))%nat ->
+             nth c (nth k (m1_vars m) []) 0 = a * nth k (m1_nodes m) 0 + b) ->
+  nth 0 (m1_nodes m) 0 - snapR < x -> x < nth (length (m1_nodes m) - 1) (m1_nodes m) 0 + snapR ->
+  exists r, @interp1 AR snapR m x = Ok r /\ nth c r 0 = a * x + b.
+Proof. intros. apply interp_linear_exact; auto. exact snapR_pos. Qed.
+
+(* non-vacuity: the non-uniform mesh [0;1;3] carrying 2x+1, at x = 2 *)
+Definition ex_lmesh : mesh1 AR R := mkM1 (A:=AR) 1 [0; 1; 3] [[1]; [3]; [7]].
+
+Example interp_linear_exact_nonvacuous :
+  0 < snapR /\ wf1 ex_lmesh /\ spaced snapR (m1_nodes ex_lmesh) /\
+  (2 <= length (m1_nodes ex_lmesh))%nat /\ (0 < m1_nvars ex_lmesh)%nat /\
+  (forall k, (k < length (m1_nodes ex_lmesh))%nat ->
+             nth 0 (nth k (m1_vars ex_lmesh) []) 0 = 2 * nth k (m1_nodes ex_lmesh) 0 + 1) /\
+  nth 0 (m1_nodes ex_lmesh) 0 - snapR < 2 /\
+  2 < nth (length (m1_nodes ex_lmesh) - 1) (m1_nodes ex_lmesh) 0 + snapR /\
+  @interp1 AR snapR ex_lmesh 2 = Ok [5].
+Proof.
+  assert (Hwf : wf1 ex_lmesh) by (split; [reflexivity | repeat constructor]).
+  assert (Hsp : spaced snapR (m1_nodes ex_lmesh)).
+  { intros [|[|k]] Hk; cbn in Hk; try lia; unfold snapR; cbn; lra. }
+  assert (Hlin : forall k, (k < length (m1_nodes ex_lmesh))%nat ->
+             nth 0 (nth k (m1_vars ex_lmesh) []) 0 = 2 * nth k (m1_nodes ex_lmesh) 0 + 1).
+  { intros [|[|[|k]]] Hk; cbn in *; try lra; lia. }
+  assert (Hlo : nth 0 (m1_nodes ex_lmesh) 0 - snapR < 2) by (unfold snapR; cbn; lra).
+  assert (Hhi : 2 < nth (length (m1_nodes ex_lmesh) - 1) (m1_nodes ex_lmesh) 0 + snapR)
+    by (unfold snapR; cbn; lra).
+  repeat split; try apply Hwf; try (cbn; lia); try exact snapR_pos; try assumption.
+  rewrite (interp_in_cell_snapR ex_lmesh 1 2); auto; try (cbn; lia);
+    try (unfold snapR; cbn; lra).
+  unfold lerp_row. cbn. f_equal. f_equal. lra.
+Qed.
